@@ -152,6 +152,101 @@ def zero_row_shadow(rnd, size):
     return m, texts
 
 
+def class0_column(rnd, size):
+    """Class kerning whose ClassDef2 *class 0* column ("any other second glyph") holds non-zero
+    values next to values for listed classes: kerning that regrouping glyph classes cannot
+    express, so compaction must leave it intact.  feaLib never builds this; the tables are
+    made directly as otTables.  size 1 wraps the lookup in Extension subtables (in memory)."""
+    n = 120
+    order = names(n)
+    lefts = _partition(rnd, order[1:40], 7, 3)
+    rights = _partition(rnd, order[40:80], 6, 3)
+    listed = {g for r in rights for g in r}
+    others = [g for g in order[1:] if g not in listed]
+    st, class0 = [], []
+    for i, l in enumerate(lefts):
+        for r in rights:
+            if rnd.random() < 0.6:
+                st.append((l, r, (0, 0, _nz(rnd), 0), None))
+        if not any(x[0] == l for x in st):
+            st.append((l, rights[0], (0, 0, _nz(rnd), 0), None))
+        if i % 3 != 2:
+            class0.append((l, (0, 0, _nz(rnd), 0)))
+    # the rule-level meaning: class 0 of ClassDef2 is the set of all glyphs not listed there
+    rules = list(st) + [(l, others, v0, None) for l, v0 in class0]
+    lk = {"kind": "ppos", "flag": {}, "pairs": [], "classes": [rules], "_build": {"classes": [st], "class0": class0}}
+    # a second lookup (plain class kerning) so that there is something to compact as well
+    m2, _t = class_kern(rnd, 0, shadow=False)
+    lk2 = m2["GPOS"][0]
+    m = _model(max(n, len(m2["order"])), gpos=[lk, lk2])
+    m["extension"] = bool(size)
+    texts = []
+    for l in lefts:
+        for g in (l[0], l[-1]):
+            for o in rnd.sample(others, 6) + [r[0] for r in rights]:
+                texts.append([g, o])
+    for _ in range(150):
+        texts.append([rnd.choice(order[1:]) for _i in range(rnd.randrange(2, 6))])
+    texts += _t[:150]
+    return m, texts
+
+
+def permuted(rnd, size):
+    """Tables whose Coverage-parallel arrays (PairSet[], Value[], MarkRecord[], BaseRecord[],
+    EntryExitRecord[]) are built first and whose font then gets another glyph order
+    (TTFont.setGlyphOrder with everything in memory): Coverage glyph lists are no longer in
+    glyph-id order when they are written, and every glyph must keep its own record.  Only the
+    glyphs that sit in such coverages are moved; second glyphs of pairs keep their relative
+    order (PairValueRecords inside a PairSet are not re-sorted by the library, a separate
+    matter)."""
+    k = {0: 14, 1: 120}[size]
+    n = 6 * k + 10
+    order = names(n)
+    A = order[1:1 + k]              # first glyphs of pairs
+    S = order[1 + k:1 + 2 * k]      # single-position glyphs
+    Mk = order[1 + 2 * k:1 + 3 * k]  # marks
+    Bs = order[1 + 3 * k:1 + 4 * k]  # bases
+    Cu = order[1 + 4 * k:1 + 5 * k]  # cursive glyphs
+    R = order[1 + 5 * k:]           # second glyphs (never moved)
+    pairs = []
+    for a in A:
+        for b in sorted(rnd.sample(R, rnd.choice([1, 2, 3])), key=order.index):
+            pairs.append((a, b, (0, 0, _nz(rnd), 0), None))
+    spos = {g: (_nz(rnd), _nz(rnd), _nz(rnd), 0) for g in S}
+    marks = {mk: ("C%d" % (i % 3), (rnd.randrange(0, 300), rnd.randrange(300, 800))) for i, mk in enumerate(Mk)}
+    bases = {b: {"C%d" % c: (rnd.randrange(0, 600), rnd.randrange(-200, 900)) for c in range(3)} for b in Bs}
+    curs = {g: ((rnd.randrange(0, 100), rnd.randrange(-50, 50)), (rnd.randrange(300, 600), rnd.randrange(-50, 50))) for g in Cu}
+    gdef = {g: 1 for g in order[1:]}
+    gdef.update({g: 3 for g in Mk})
+    subst = [((g,), (rnd.choice(R),)) for g in rnd.sample(A + S, max(3, k // 2))]
+    ligs = [((a, rnd.choice(R)), (rnd.choice(R),)) for a in rnd.sample(Bs + Cu, max(3, k // 2))]
+    m = _model(n, gsub=[{"kind": "subst", "flag": {}, "subtables": [subst]}, {"kind": "subst", "flag": {}, "subtables": [ligs]}],
+               gpos=[{"kind": "ppos", "flag": {}, "pairs": pairs, "classes": []},
+                     {"kind": "spos", "flag": {}, "values": spos},
+                     {"kind": "mbase", "flag": {}, "marks": marks, "bases": bases},
+                     {"kind": "curs", "flag": {}, "anchors": curs}], gdef=gdef)
+    m["permute"] = [A, S, Mk, Bs, Cu]
+    texts = [[a, b] for a, b, v1, v2 in pairs] + [[g] for g in S] + [[b, mk] for b in Bs[:k] for mk in rnd.sample(Mk, 3)]
+    texts += [[rnd.choice(Cu) for _i in range(rnd.randrange(2, 5))] for _ in range(3 * k)]
+    texts += [list(r[0]) for r in subst + ligs]
+    texts += [[rnd.choice(order[1:]) for _i in range(rnd.randrange(2, 6))] for _ in range(150)]
+    return m, texts
+
+
+def permute_order(rnd, order, groups):
+    """New glyph order: the glyphs of each group are shuffled among their own positions."""
+    new = list(order)
+    for g in groups:
+        pos = sorted(order.index(x) for x in g)
+        sh = list(g)
+        rnd.shuffle(sh)
+        if sh == list(g) and len(sh) > 1:
+            sh = sh[1:] + sh[:1]
+        for p_, x in zip(pos, sh):
+            new[p_] = x
+    return new
+
+
 def ligatures(rnd, size):
     """Ligature dictionary: LigatureSubst->LigatureSet offsets overflow (split by first glyph)."""
     nfirst, per, n = {0: (30, 8, 300), 1: (330, 42, 900), 2: (500, 50, 1200)}[size]
@@ -348,7 +443,7 @@ def huge_marklig(rnd, size):
 SPECS = {
     "kern_pairs": kern_pairs, "class_kern": class_kern, "zero_row_shadow": zero_row_shadow, "ligatures": ligatures,
     "multiple": multiple, "alternate": alternate, "markbase": markbase, "singlepos": singlepos,
-    "many_lookups": many_lookups, "mixed": mixed,
+    "many_lookups": many_lookups, "mixed": mixed, "class0_column": class0_column, "permuted": permuted,
 }
 UNPACKABLE = {"huge_ligature_set": huge_ligature_set, "huge_chain_format3": huge_chain_format3, "huge_marklig": huge_marklig}
 LEVEL_OF = {
@@ -410,6 +505,8 @@ def _lookup_tables(lk, gm):
     from fontTools.otlLib import builder as B
     from fontTools.ttLib.tables import otTables as ot
 
+    from fontTools.ttLib.tables.otBase import ValueRecord
+
     k = lk["kind"]
     if k == "subst":
         out = []
@@ -429,9 +526,20 @@ def _lookup_tables(lk, gm):
         out = []
         if lk["pairs"]:
             out.extend(B.buildPairPosGlyphs({(a, b): (_value(v1), _value(v2)) for a, b, v1, v2 in lk["pairs"]}, gm))
-        for st in lk["classes"]:
-            out.append(B.buildPairPosClassesSubtable({(tuple(l), tuple(r)): (_value(v1), _value(v2)) for l, r, v1, v2 in st}, gm))
+        bld = lk.get("_build")
+        for st in (bld["classes"] if bld else lk["classes"]):
+            t = B.buildPairPosClassesSubtable({(tuple(l), tuple(r)): (_value(v1), _value(v2)) for l, r, v1, v2 in st}, gm)
+            if bld:
+                # non-zero values in the class-0 column of ClassDef2 ("any other glyph")
+                for l, v0 in bld["class0"]:
+                    rows = {t.ClassDef1.classDefs.get(g, 0) for g in l}
+                    assert len(rows) == 1
+                    t.Class1Record[rows.pop()].Class2Record[0].Value1 = ValueRecord(src=_value(v0), valueFormat=t.ValueFormat1)
+            out.append(t)
         return out
+    if k == "curs":
+        return [B.buildCursivePosSubtable({g: (None if e is None else B.buildAnchor(*e), None if x is None else B.buildAnchor(*x))
+                                           for g, (e, x) in lk["anchors"].items()}, gm)]
     if k == "mbase":
         cls = sorted({c for c, a in lk["marks"].values()})
         cid = {c: i for i, c in enumerate(cls)}
@@ -493,7 +601,15 @@ def add_tables(font, model):
         lookups = []
         for lk in list(lks) + extra:
             sts = [s for s in _lookup_tables(lk, gm) if s is not None]
-            lookups.append(B.buildLookup(sts, 0))
+            lkp = B.buildLookup(sts, 0)
+            if model.get("extension") and tag == "GPOS":
+                for si, sub in enumerate(lkp.SubTable):
+                    ext = ot.ExtensionPos()
+                    ext.Format = 1
+                    ext.ExtSubTable = sub
+                    lkp.SubTable[si] = ext
+                lkp.LookupType = 9
+            lookups.append(lkp)
         t = getattr(ot, tag)()
         t.Version = 0x00010000
         t.LookupList = ot.LookupList()
